@@ -7,7 +7,9 @@ PROPS_MODULES = ["TraitsVerif.Props.C08"]
 TRANSLATORS = []
 RULE = ("histories over a pool of 3-5 interlinked HasTraits objects (value:Int, mate:Instance(tag), child:Instance "
         "with an optional dynamic default, ichild / nchild: Instance with comparison_mode identity / none, per-case "
-        "value semantics: pool objects in the same `~class` of the header compare == although distinct, kids:List, byname:Dict, group:Set, add_trait of extra/xchild/items): "
+        "value semantics: pool objects in the same `~class` of the header compare == although distinct, mate (tag=True) "
+        "with the same dynamic default as child, tkids: List(tag=False); add_trait with metadata True/False/0/''/'x'/"
+        "None/absent; filtered links in non-terminal position over defaults materialised after observe(), kids:List, byname:Dict, group:Set, add_trait of extra/xchild/items): "
         "0-4 linking mutations, observe of 1-2 random expressions (series, parallel, list/dict/set items, the DSL "
         "`items` expansion, +tag, *, optional traits, ':' vs '.') built with the public expression objects, then "
         "mutations (reassign, list/dict/set mutators incl. detached containers, same object twice, lists with repeated "
@@ -58,6 +60,13 @@ def corpus():
         "ld 100 2;lsl 100 0 2 [2,2];ld 100 0",
         "obs|3|N,N,N|set 2 child 1;setl 0 kids 100 [1,2,1,2];obs 0 0 t.kids.1.0 li.1.0 then t.child.1.0 t.value.1.0 then then;"
         "lst 100 0 2 [2,2];ld 100 0;ld 100 0;ld 100 0",
+        # filtered links in non-terminal position over defaults materialised after observe(); falsy metadata
+        "obs|3|1,N,N|obs 0 0 meta.1 t.value.1.0 then;get 0 mate 100;get 0 tkids 102;la 102 2",
+        "obs|3|1,N,N|obs 0 0 meta.1 li.1.1 t.value.1.0 then then;get 0 tkids 100;la 100 2;setl 0 tkids 102 [2];"
+        "setl 0 tkids 104 [2];la 104 1",
+        "obs|3|2,N,N|obs 0 0 any.1 t.value.1.1 then;get 0 child 100;addt 0 xchild 2;set 0 xchild 1",
+        "obs|3|N,N,N|obs 0 0 meta.1 t.value.1.0 then;addt 0 xchild 2;set 0 xchild 1;addt 0 items 3;set 0 items 2;"
+        "addt 1 xchild 6;set 1 xchild 2;addt 2 xchild 4",
         # value-equal but distinct objects (header `~class`): a dict value replaced by an equal object is
         # re-tracked; an identity- / none-compared trait reports an equal replacement
         "obs|3|N~2,N~1,N~2|setd 1 byname 100 [0:2];obs 0 1 t.byname.1.0 di.1.0 then t.value.1.0 then;ds 100 0 0;ds 100 0 2",
@@ -84,6 +93,8 @@ def generate(rng, tier):
         yield O.history_eq(rng)
     for _ in range(nh // 8):
         yield O.history_mult(rng)
+    for _ in range(nh // 6):
+        yield O.history_filt(rng)
 
 
 def run_impl(case):
